@@ -1,6 +1,8 @@
 import TdVerif.Sexp
 import TdVerif.Model.C10Memmap
 import TdVerif.Model.C10Tensor
+import TdVerif.Model.C10MetaTask
+import TdVerif.Model.C10Nested
 
 namespace TdVerif.Drive
 open TdVerif Sexp TdVerif.C10
@@ -140,6 +142,42 @@ def handleC10 (cmd : String) (args : List Sexp) : Option Sexp :=
       | .error e => pure (tagged "err" [.atom (match e with | .existing => "existing" | .exists_ => "exists" | .partialView => "partial-view")])
       | .ok (fs', t) =>
         pure (tagged "ok" [ofNats (fileBytes fs' dstP), ofNats (t.value fs'), ofNats ((fromFilename dstP (value.value fs2).length).value fs')])
+  -- (c10.metatask ((key class)…) (expected keys…) p1 p2 inplace): the `save_metadata` task of a non-tensor entry under the schedule (p1, p2)
+  --   class = null | json | pickle   ->  (err) | (ok ((key class)…))
+  | "c10.metatask", [Sexp.list d, Sexp.list exp, p1, p2, inplace] => do
+      let cls? : String → Option MetaTask.V := fun s => match s with
+        | "null" => some .null | "json" => some .json | "pickle" => some .pickle | _ => none
+      let d0 ← d.mapM (fun e => match e with
+        | Sexp.list [Sexp.atom k, Sexp.atom c] => do pure (k, ← cls? c)
+        | _ => none)
+      let exp ← exp.mapM asAtom?
+      let p1 ← asNat? p1; let p2 ← asNat? p2
+      let inpl := match inplace with | Sexp.atom "true" => true | _ => false
+      let out := if inpl then MetaTask.runTaskInplace d0 else MetaTask.runTask (MetaTask.liveAt d0 exp p1 p2)
+      let clsS : MetaTask.V → String := fun v => match v with | .null => "null" | .json => "json" | .pickle => "pickle"
+      match out with
+      | .err => pure (tagged "err" [])
+      | .ok items => pure (tagged "ok" [.list (items.map fun (e : String × MetaTask.V) => Sexp.list [.atom e.1, .atom (clsS e.2)])])
+  -- (c10.nested ((shape cells)…) r like): `_populate_memmap` of a nested-tensor leaf `j` in a new directory, then the loader's is_nested branch
+  --   -> (err) | (ok (cells of j.shape.memmap) (cells of j.memmap) ((shape cells)… as loaded))
+  | "c10.nested", [Sexp.list comps, r, like] => do
+      let cs ← comps.mapM (fun c => match c with
+        | Sexp.list [Sexp.list sh, Sexp.list b] => do pure ((← nats? sh), (← nats? b))
+        | _ => none)
+      let r ← asNat? r
+      let like := match like with | Sexp.atom "true" => true | _ => false
+      match populateNested (fun _ => none) [] "j" cs true like true with
+      | .error _ => pure (tagged "err" [])
+      | .ok fs' =>
+        pure (tagged "ok" [ofNats (fileBytes fs' (shapePath [] "j")), ofNats (fileBytes fs' (dataPath [] "j")),
+          .list ((loadNested fs' [] "j" cs.length r).map fun (c : Comp) => Sexp.list [ofNats c.1, ofNats c.2])])
+  -- (c10.names (op…)) with op = (chdir dir…) | (save rel…): the file names recorded by the saves
+  | "c10.names", [Sexp.list ops] => do
+      let ops ← ops.mapM (fun o => match o with
+        | Sexp.list (Sexp.atom "chdir" :: d) => do pure (NameOp.chdir (← d.mapM asAtom?))
+        | Sexp.list (Sexp.atom "save" :: d) => do pure (NameOp.save (← d.mapM asAtom?))
+        | _ => none)
+      pure (.list ((recordedNames [] ops).map fun (p : Path) => Sexp.list (p.map Sexp.atom)))
   | _, _ => none
 
 end TdVerif.Drive
